@@ -49,7 +49,7 @@ PROPS["C13"] = {
                    "c13::c13_negative_twin"],
          "timeout": 900},
         {"id": "e2e", "crate": "gen",
-         "quick": ["c13e::c13e_entry_shapes", "c13e::c13e_trait_and_method_markers", "c13e::c13e_payload_shapes", "c13e::c13e_display_object_reports_fmt_errors", "c13e::c13e_roundtrip", "c13e::c13e_io_codes", "c13e::c13e_vtable_level", "c13e::c13e_negative_twin"],
+         "quick": ["c13e::c13e_entry_shapes", "c13e::c13e_trait_and_method_markers", "c13e::c13e_payload_shapes", "c13e::c13e_display_object_reports_fmt_errors", "c_r7::r7_int_result_with_wrapped_payload_is_int_coded", "c13e::c13e_roundtrip", "c13e::c13e_io_codes", "c13e::c13e_vtable_level", "c13e::c13e_negative_twin"],
          "timeout": 900},
     ],
     "negative": ["c13::c13_negative_twin", "c13e::c13e_negative_twin"],
@@ -379,7 +379,8 @@ PROPS["C01"] = {
                    # call equivalence also means: arguments arrive as a direct call would deliver them (address of an empty slice
                    # included), and an integer-coded result with a droppable payload is moved out exactly once, nothing on Err
                    "c02::c02_args_slices", "c02::c02_args_mutable", "c02::c02_strings_multibyte", "c02::c02_returns", "c13e::c13e_roundtrip",
-                   "c06::c06_zero_sized_payload_with_destructor", "c01::c01_negative_twin"],
+                   "c06::c06_zero_sized_payload_with_destructor", "c_r7::r7_cast_operand_once_and_borrowed_result_follows_state",
+                   "c07::c07_clone_cast_selfreturn", "c01::c01_negative_twin"],
          "thorough_adds": ["c01::c01_reader_box_k4", "c01::c01_reader_ref_k4", "c01::c01_reader_arc_k4", "c01::c01_counter_box_k4",
                            "c01::c01_counter_mut_k4", "c01::c01_counter_ctxbox_k4", "c01::c01_consume_box_k3",
                            "c01::c01_consume_ctxbox_k3", "c01::c01_group_box_k4", "c01::c01_group_cast_k3", "c01::c01_group_mut_k4"],
@@ -418,7 +419,7 @@ PROPS["C02"] = {
                    "c02::c02_returns", "c02::c02_boxed_object", "c02::c02_npo_options", "c02::c02_narrow_options_and_zst_mut_slices", "c02::c02_negative_twin",
                    # integer-coded results with an io::Error payload (every i32 OS code) - shared with C13
                    "c13e::c13e_io_codes", "c13e::c13e_roundtrip", "c13e::c13e_payload_shapes",
-                   "c13e::c13e_display_object_reports_fmt_errors"],
+                   "c13e::c13e_display_object_reports_fmt_errors", "c01::c01_overridden_defaults_and_marker_scope"],
          "timeout": 1800},
         {"id": "corpus", "crate": "gencorp", "quick": _gc_subset(1), "thorough": list(_GC), "timeout": 900},
         # an iterator passed on by reference is still the caller's iterator afterwards: nothing beyond what was offered is taken
@@ -448,6 +449,7 @@ PROPS["C04"] = {
                    "c04::c04_vtbl_provided_methods_have_slots", "c04::c04_overaligned_type_argument",
                    "c08x::c08x_mandatory_and_optional_word_order", "c08x::c08x_external_and_local_traits_in_one_list",
                    "c08::c08_owned_list_of_four_argument_registration",
+                   "c_r7::r7_vtbl_order_with_type_between_methods", "c_r7::r7_opaque_aliases_have_the_concrete_size",
                    "c04::c04_container_order_with_context_and_ret_tmp", "c04::c04_noncontiguous_cast_and_ret_tmp_order",
                    "c04::c04_negative_twin"],
          "timeout": 900},
@@ -505,7 +507,8 @@ PROPS["C07"] = {
     "crate": "gen",
     "groups": [
         {"id": "context",
-         "quick": ["c07::c07_owned_tree", "c07::c07_arc_context_tree", "c07::c07_opaque_overaligned_arc_context_tree", "c07::c07_group_consuming_call", "c07::c07_group_instance_destroyed_before_context_released", "c07::c07_borrowed_child_moved_out_and_dropped", "c07::c07_consuming_call_keeps_context", "c07::c07_clone_cast_selfreturn",
+         "quick": ["c07::c07_owned_tree", "c07::c07_arc_context_tree", "c07::c07_opaque_overaligned_arc_context_tree", "c07::c07_group_consuming_call", "c07::c07_group_instance_destroyed_before_context_released",
+                   "c_r7::r7_owned_child_through_borrowed_child_keeps_context", "c_r7::r7_zero_sized_counted_context", "c07::c07_borrowed_child_moved_out_and_dropped", "c07::c07_consuming_call_keeps_context", "c07::c07_clone_cast_selfreturn",
                    "c07::c07_caller_glue_holds_context_across_consuming_call", "c07::c07_consuming_call_returning_wrapped_result",
                    "c07::c07_failed_cast_and_int_result_child", "c07::c07_instance_destroyed_before_context_released",
                    "c07::c07_kf_borrowed_obj_ref", "c07::c07_kf_borrowed_obj_mut", "c07::c07_kf_borrowed_group_ref",
